@@ -9,6 +9,7 @@ open C04Model
 open C03LeafModel
 open C04XrefModel
 open C03SencPassModel
+open C03PfxModel
 
 (* ---- H lines: encode histories through the two encoder models (coq/c03/C03EncHistModel.v over the C02 aggregate states); the token
    parsers and digests mirror ocaml/c02_driver.ml *)
@@ -458,6 +459,35 @@ let () =
           | r -> cls_of r in
         if m1 = o1 && m2 = o2 then Printf.printf "OK %s\n" id
         else Printf.printf "MISMATCH %s entry model_r=%s model_sr=%s\n" id m1 m2
+      | ["C"; id; hex; o1; o2] ->
+        let bs = bytes_of_hex hex in
+        let pfx_fields (v : pfxval) : string =
+          match v with
+          | PCnt x -> Printf.sprintf "cnt:%d:%s:%s:[%s]" (int_of_n x.sd_version) (hexn x.sd_flags) (dec_of_n x.sd_count)
+                        (S.concat "," (L.map (fun t -> name_hex (tname t) ^ ":" ^ dec_of_n (tsize t)) x.sd_kids))
+          | PWvtt (dri, kids) -> Printf.sprintf "wvtt:%d:[%s]" (int_of_n dri) (S.concat "," (L.map dump kids))
+          | PAse (a, kids) -> Printf.sprintf "ase:%d:%d:%d:%d:[%s]" (int_of_n a.as_dri) (int_of_n a.as_cc) (int_of_n a.as_ss) (int_of_n a.as_rate)
+                                (S.concat "," (L.map dump kids)) in
+        let m1 = match pfxbox_r bs with
+          | Ok (v, n) -> Printf.sprintf "ok:%s:S%s:%d" (pfx_fields v) (dec_of_n (pfxval_size v)) (int_of_n n)
+          | r -> cls_of r in
+        let m2 = match pfxbox_sr bs with
+          | Ok ((v, p), e) -> Printf.sprintf "ok:%s:S%s:%d:%s" (pfx_fields v) (dec_of_n (pfxval_size v)) (int_of_z p) (b01 e)
+          | r -> cls_of r in
+        if m1 = o1 && m2 = o2 then Printf.printf "OK %s\n" id
+        else Printf.printf "MISMATCH %s pfx model_r=%s model_sr=%s\n" id m1 m2
+      | ["M"; id; "pfx"; fields; _; kids; enc] ->
+        let (ow, osw) = match split_on '/' enc with [a; b] -> (a, b) | _ -> failwith "bad enc" in
+        let ks = parse_boxes kids in
+        let (nm, sz, fixed) =
+          (match split_on ':' fields with
+           | [nm; sz; "w2"; v; f; c] -> (nm, sz, word2_fixed (ni v) (ni f) (ni c))
+           | [nm; sz; "wvtt"; dri] -> (nm, sz, wvtt_fixed (ni dri))
+           | [nm; sz; "ase"; dri; cc; ss; rate] -> (nm, sz, ase_fixed (ni dri) (ni cc) (ni ss) (ni rate))
+           | _ -> failwith "bad pfx M line") in
+        let mw = pfx_enc_w (bytes_of_hex nm) (ni sz) fixed ks and msw = pfx_enc_sw (bytes_of_hex nm) (ni sz) fixed ks in
+        if enc_string mw = ow && enc_string msw = osw then Printf.printf "OK %s\n" id
+        else Printf.printf "MISMATCH %s pfx-encode model_w=%s model_sw=%s\n" id (enc_string mw) (enc_string msw)
       | ["M"; id; "mdat"; data; large; _; enc] ->
         let (ow, osw) = match split_on '/' enc with [a; b] -> (a, b) | _ -> failwith "bad enc" in
         let m = { md_data = (if data = "-" then [] else bytes_of_hex data); md_large = (large = "1") } in
